@@ -20,7 +20,9 @@ EXTENDS PestSem, Json, IOUtils, SequencesExt
 
 CONSTANTS Mode, Family, MaxLen, Sample
 
-Kinds == <<"grp", "assoc", "extract", "dup", "never", "notnever">>
+\* "never" / "notnever" / "dup" spell the replacement exactly as the statement does, fully parenthesised; the "...0" kinds are
+\* the same rewrites with the minimal parentheses
+Kinds == <<"grp", "assoc", "extract", "dup", "never", "notnever", "dup0", "never0", "notnever0">>
 Never == Str(<<1114109>>)
 NewRule == "zz_extracted"
 
@@ -41,9 +43,12 @@ Local(kind, e) ==
   CASE kind = "grp"      -> Grp(e)
     [] kind = "assoc"    -> IF e.k = "seq" THEN SeqE(<<SeqE(SubSeq(e.es, 1, 2))>> \o SubSeq(e.es, 3, Len(e.es)))
                             ELSE AltE(<<e.es[1], AltE(SubSeq(e.es, 2, Len(e.es)))>>)
-    [] kind = "dup"      -> AltE(<<e, e>>)
-    [] kind = "never"    -> AltE(<<SeqE(<<e, Never>>), e>>)
-    [] kind = "notnever" -> AltE(<<SeqE(<<NotP(e), Never>>), e>>)
+    [] kind = "dup0"      -> AltE(<<e, e>>)
+    [] kind = "never0"    -> AltE(<<SeqE(<<e, Never>>), e>>)
+    [] kind = "notnever0" -> AltE(<<SeqE(<<NotP(e), Never>>), e>>)
+    [] kind = "dup"       -> Grp(AltE(<<e, e>>))
+    [] kind = "never"     -> Grp(AltE(<<Grp(SeqE(<<e, Never>>)), e>>))
+    [] kind = "notnever"  -> Grp(AltE(<<Grp(SeqE(<<NotP(Grp(e)), Never>>)), e>>))
 
 Extend(f, n, v) == [x \in DOMAIN f \cup {n} |-> IF x = n THEN v ELSE f[x]]
 RewriteGN(g, rule, p, kind, newname) ==
